@@ -18,6 +18,9 @@ def _dwarfinfo(line_bytes, le, asz):
              'gnu_debugaltlink_sec', 'debug_types_sec']
     kw = {n: None for n in names}
     kw['debug_line_sec'] = sec
+    from specs import lnp_spec as L
+    for nm, data in (('debug_str', L.STR), ('debug_line_str', L.LINE_STR)):
+        kw[nm + '_sec'] = DebugSectionDescriptor(stream=io.BytesIO(data), name='.' + nm, global_offset=0, size=len(data), address=0)
     return DWARFInfo(config=DwarfConfig(little_endian=le, default_address_size=asz, machine_arch='x64'), **kw)
 
 
